@@ -23,7 +23,7 @@ RULE = ('W in {1 home entry, 1 home + 1 volume entry, 2 home entries} x M subset
         'readers {list, list --files, list --size, restore date|path|none, rm exact, rm *, empty, empty 0, empty 7}; non-trivial = a malformed neighbour was read before a well-formed entry; '
         'distinct = (reader, neighbour kinds, outcome)')
 MK = ['nontrashinfo', 'empty', 'header', 'binary', 'nonutf8', 'nopath', 'nodate', 'baddate', 'nopayload', 'orphan', 'dirinfo', 'nodate-samepath', 'baddate-samepath', 'dangling-link-info', 'loop-link-info', 'tzdate', 'noname-empty', 'noname-valid', 'dotname-valid', 'dotdotname-valid', 'badescape', 'two-strays', 'short-stray', 'nul-path', 'empty-path']
-READERS = ['list', 'list-files', 'list-size', 'restore-date', 'restore-path', 'restore-none', 'rm-exact', 'rm-star', 'empty', 'empty0', 'empty7']
+READERS = ['list', 'list-files', 'list-size', 'restore-date', 'restore-path', 'restore-none', 'restore-cwd', 'rm-exact', 'rm-star', 'empty', 'empty0', 'empty7']
 WSETS = ['h1', 'h1+v1', 'h2']
 TD = scen.HOME_TRASH
 TDV = '/mnt/v1/.Trash-0'
@@ -148,14 +148,16 @@ def observe(ws, ms, reader, perm):
                     obs['listed:' + nm] = lines.count('%d %s' % (size, loc))
         elif reader.startswith('restore'):
             so = reader.split('-')[1]
-            r0 = sb.run(['trash-restore', '--sort', so, '/'], plan=plan, cwd='/', stdin='\n')
+            scope, rcwd = (['/'], '/') if so != 'cwd' else ([], '/home/u/w')          # restore-cwd: no PATH argument, run from the directory the home entries came from
+            so = 'date' if so == 'cwd' else so
+            r0 = sb.run(['trash-restore', '--sort', so] + scope, plan=plan, cwd=rcwd, stdin='\n')
             listing = scen.parse_restore_listing(r0.out)
-            target = ents[-1]
+            target = ents[-1] if rcwd == '/' else ents[0]
             idx = [i for (i, d, p) in listing if p == target[2] and d == target[3].replace('T', ' ')]
             for td, nm, loc, d in ents:
                 obs['offered:' + nm] = sum(1 for (i, dd, p) in listing if p == loc and dd == d.replace('T', ' '))
             if len(idx) == 1:
-                r = sb.run(['trash-restore', '--sort', so, '/'], plan=plan, cwd='/', stdin='%d\n' % idx[0])
+                r = sb.run(['trash-restore', '--sort', so] + scope, plan=plan, cwd=rcwd, stdin='%d\n' % idx[0])
             else:
                 r = r0
             after = sb.snapshot()
